@@ -12,6 +12,8 @@ def dispatch (op : String) (payload : Json) : R Json :=
   | "cli_merge" => C20.handle payload
   | "names" => C10.handle payload
   | "naming_sites" => C10.handleSites payload
+  | "arg_spell" => C09.handle payload
+  | "analyse_fns" => C09.handleFns payload
   | "locator" => C13.handle payload
   | "import_walk" => C13.handleWalk payload
   | "cache_gate" => C19.handleGate payload
